@@ -1,13 +1,35 @@
 """C03 — every mutation is validated and failure-atomic.
 
 Proof obligations: Props/C03.v (characterisation parametric in the GENERATED mutator tables, history
-theorem by induction, witnesses for every unsafe shape, refutation of the full statement).
-Tie to the code: Gen/Tables.v is regenerated from collections_impl.py + CPython on every run; the model's
-`mstep` (Struct/Instance.v) is compared step by step, inside Coq, with what the real library did on generated
-histories.  Violation search: the statement's clauses evaluated on the implementation's observed behaviour —
-atomicity on an observable snapshot (field reads, ==, str, serialization) in Python, validity of the
-reified state (`state_ok_dom`, i.e. struct_ok on the stated domain) in Coq — plus, for every table entry
-that is not safe NOW, a directed replay of the witness construction on the real wrapper."""
+theorem by induction, refinement of the statement-level wrapper model to the coarse step, witnesses for every
+unsafe shape, refutation of the full statement).
+Tie to the code: Gen/Tables.v (which mutators exist / are overridden) and Gen/WrapBodies.v (every overriding
+method transliterated statement by statement; classified in Coq) are regenerated from collections_impl.py + CPython
+on every run; the model's `mstep` (Struct/Instance.v) is compared step by step, inside Coq, with what the real
+library did on generated histories.  Violation search: the statement's clauses evaluated on the implementation's
+observed behaviour — atomicity on an observable snapshot (field reads, ==, str, serialization) and the exception
+class in Python, validity of the reified state (`state_ok_dom`, i.e. struct_ok on the stated domain) in Coq.
+
+Streams (all end in the same judgement):
+  history                  random classes (typed Array/Deque/Map fields, hooks, immutables, subclasses), start instance
+                           from the constructor / deepcopy / pickle / shallow_clone, 2..8 (40) operations drawn from ALL
+                           introspected mutators with positional, keyword, slice, one-shot-iterator, failing-iterator and
+                           key-function arguments, `x.f += v` statement forms, setattr valid/invalid/None/equal-but-other-type,
+                           del; handles re-read or re-used; one corrupted call per typed container at the end
+  directed:table-entry     witness family per table entry (unsafe entries must yield a concrete failing input)
+  directed:lookalike       ENUMERATED: every numeric/bool leaf (dict keys included) of every stored value replaced by a value
+                           of another type Python's == cannot tell from it, through every entry point
+  directed:value-lattice   ENUMERATED: a value lattice over scalar / AllOf / AnyOf / OneOf / NotField fields, alone and as
+                           items of typed containers
+  directed:nonatomic-base  calls on which the base type's own method is not failure-atomic (list.sort with a comparison
+                           that fails after moves; extend / update from an iterator that fails after valid items)
+  directed:field-classes   EVERY exported Field class: assignment of a rejected value over an accepted one
+  directed:container-hook  a __validate__ that reads container sizes: the field stays validated after a hook failure
+  directed:hooks / extfields / nested   the known defects F4, F5, del bypassing the hook
+Known false alarms met while building (and how they were repaired) are recorded in DESIGN.md 12.3; two met in round 3:
+a directed call that stored a slice / generator object as an ELEMENT (not reifiable: such calls are skipped), and a
+Decimal look-alike of 1e300 that does not survive Decimal(...).scaleb under the default context (candidates must
+round-trip through the reifier)."""
 import collections
 import inspect
 import json
@@ -20,6 +42,8 @@ from harness import coqemit as E
 from harness import fieldgen as G
 from harness import structgen as S
 from harness import gen as GEN
+from harness import c03ops as X
+from harness.genmods import wrapbodies as WB
 
 ADDR = re.compile(r"0x[0-9a-fA-F]+")
 KIND_ID = {"list": 0, "deque": 1, "dict": 2}
@@ -88,35 +112,96 @@ def gen_index(rnd, n, valid):
     return rnd.choice([n, n + 2, -n - 1]) if not valid else 0
 
 
+def _failing_keys(n):
+    """Keys for list.sort that make the sort raise TypeError after it has already moved elements."""
+    keys = [("int", n - i) for i in range(n)]
+    if n >= 2:
+        keys[max(1, (2 * n) // 3)] = ("str", "a")
+    return keys
+
+
+def gen_iterable(rnd, items, valid):
+    """The same items as a list / tuple / one-shot iterator / iterator that fails after yielding them."""
+    r = rnd.random()
+    if r < 0.55:
+        return ("list", items)
+    if r < 0.67:
+        return ("tuple", items)
+    if r < 0.85:
+        return ["x:iter", items]
+    return ["x:failiter", items]
+
+
+def gen_slice(rnd, n):
+    lo = rnd.choice([None, 0, 1, max(0, n - 1), n, n + 2, -1])
+    hi = rnd.choice([None, 0, 1, 2, n, n + 3, -1])
+    step = rnd.choice([None, None, None, 2, -1])
+    return ["x:slice", lo, hi, step]
+
+
 def gen_args(rnd, kind, method, f, content, ctx):
-    """Arguments (reified) for base-type mutator `method` applied to a value declared f whose current
-    content is `content` (reified items / pairs).  Both valid and invalid ones."""
+    """Arguments for base-type mutator `method` applied to a value declared f whose current content is
+    `content` (reified items / pairs).  Both valid and invalid ones.  Returns a list of positional arguments
+    (reified values or the special forms of harness/c03ops.py), or a pair (args, kwargs)."""
     valid = rnd.random() < 0.6
     n = len(content)
     I = lambda v=valid: ("int", gen_index(rnd, n, v))
     if kind in ("list", "deque"):
         item = lambda pos=None: gen_item(rnd, f, valid, ctx, pos)
-        items = lambda: ("list", [gen_item(rnd, f, valid or rnd.random() < 0.5, ctx) for _ in range(rnd.randint(0, 3))])
+        item_list = lambda: [gen_item(rnd, f, valid or rnd.random() < 0.5, ctx) for _ in range(rnd.randint(0, 3))]
+        items = lambda: ("list", item_list())
         if method == "__delitem__":
-            if kind == "list" and rnd.random() < 0.2:
-                return None  # slice: not expressible as reified value; handled by caller as index
+            if rnd.random() < (0.3 if kind == "list" else 0.05):
+                return [gen_slice(rnd, n)]
             return [I()]
         if method in ("__iadd__", "extend", "extendleft"):
             if not valid and rnd.random() < 0.15:
                 return [("int", 5)]
-            return [items()]
+            return [gen_iterable(rnd, item_list(), valid)]
         if method == "__imul__":
-            return [("int", rnd.choice([0, 1, 2, 2, 3]))] if valid or rnd.random() < 0.7 else [("str", "x")]
+            return [("int", rnd.choice([0, 1, 2, 2, 3, -1]))] if valid or rnd.random() < 0.7 else [("str", "x")]
         if method == "__setitem__":
+            r = rnd.random()
+            if n and r < 0.15:
+                # an element that Python's == cannot tell from the one it replaces, of another type
+                i = rnd.randrange(n)
+                y = X.lookalike(rnd, content[i])
+                if y is not None:
+                    return [("int", i), y]
+            if r < (0.35 if kind == "list" else 0.18):
+                sl = gen_slice(rnd, n)
+                if rnd.random() < 0.3 and n:
+                    # same length replacement (the only form an extended slice accepts)
+                    sl = ["x:slice", None, None, rnd.choice([None, 1, 2])]
+                    cnt = len(range(*slice(sl[1], sl[2], sl[3]).indices(n)))
+                    its = [gen_item(rnd, f, valid or rnd.random() < 0.6, ctx, None) for _ in range(cnt)]
+                    return [sl, gen_iterable(rnd, its, valid)]
+                return [sl, gen_iterable(rnd, item_list(), valid)]
             i = I()
             return [i, item(i[1] if i[1] >= 0 else None)]
         if method in ("append", "appendleft"):
             return [item(n if method == "append" else 0)]
-        if method in ("clear", "popleft", "reverse", "sort"):
+        if method in ("clear", "popleft", "reverse"):
             return []
+        if method == "sort":
+            r = rnd.random()
+            if r < 0.35:
+                return []
+            if r < 0.5:
+                return ([], {"reverse": ("bool", True)})
+            if r < 0.75:
+                keys = [("int", k) for k in rnd.sample(range(n + 3), n)]
+                kw = {"key": ["x:keyseq", keys]}
+                if rnd.random() < 0.4:
+                    kw["reverse"] = ("bool", rnd.random() < 0.7)
+                return ([], kw)
+            kw = {"key": ["x:keyseq", _failing_keys(max(n, 2))]}
+            if rnd.random() < 0.3:
+                kw["reverse"] = ("bool", True)
+            return ([], kw)
         if method == "insert":
-            i = ("int", rnd.randint(0, n))
-            return [i, item(i[1])]
+            i = ("int", rnd.choice([rnd.randint(0, n), rnd.randint(0, n), -1, n + 3, -n - 2]))
+            return [i, item(i[1] if 0 <= i[1] <= n else None)]
         if method == "pop":
             if kind == "deque" or rnd.random() < 0.5:
                 return []
@@ -126,19 +211,53 @@ def gen_args(rnd, kind, method, f, content, ctx):
                 return [rnd.choice(content)]
             return [item()]
         if method == "rotate":
-            return [("int", rnd.choice([0, 1, 1, 2, -1]))]
+            return [("int", rnd.choice([0, 1, 1, 2, -1]))] if rnd.random() < 0.85 else []
     else:
         key = lambda: gen_key(rnd, f, valid, ctx, content)
         val = lambda: gen_item(rnd, f, valid, ctx)
-        pairs = lambda: G.mk_dict([(gen_key(rnd, f, valid or rnd.random() < 0.5, ctx, content),
-                                    gen_item(rnd, f, valid or rnd.random() < 0.5, ctx)) for _ in range(rnd.randint(0, 2))])
+        pair_list = lambda: G.mk_dict([(gen_key(rnd, f, valid or rnd.random() < 0.5, ctx, content),
+                                        gen_item(rnd, f, valid or rnd.random() < 0.5, ctx))
+                                       for _ in range(rnd.randint(0, 3))])[1]
+        pairs = lambda: ("dict", pair_list())
+        as_tuples = lambda ps: [("tuple", [k, v]) for k, v in ps]
         if method in ("__delitem__",):
             return [key()]
         if method in ("__ior__", "update"):
-            if not valid and rnd.random() < 0.15:
+            if not valid and rnd.random() < 0.12:
                 return [("int", 5)]
-            return [pairs()]
+            r = rnd.random()
+            if content and r < 0.15:
+                # an existing entry re-assigned with an equal value (or equal key) of another type
+                k, v = rnd.choice(content)
+                y = X.lookalike(rnd, v)
+                if y is not None:
+                    return [("dict", [(k, y)])]
+                y = X.lookalike(rnd, k)
+                if y is not None and G.is_hashable(y):
+                    return [("dict", [(y, v)])]
+            ps = pair_list()
+            if r < 0.55:
+                return [("dict", ps)]
+            if r < 0.68:
+                return [("list", as_tuples(ps))]
+            if r < 0.8:
+                return [["x:iter" if rnd.random() < 0.5 else "x:failiter", as_tuples(ps)]]
+            if method == "update":
+                kw = {k[1]: v for k, v in ps if k[0] == "str" and k[1].isidentifier()}
+                pos = [(k, v) for k, v in ps if not (k[0] == "str" and k[1].isidentifier())]
+                if not kw:
+                    kw = {"kw1": val()}
+                return ([("dict", pos)] if (pos or rnd.random() < 0.4) else [], kw)
+            return [("dict", ps)]
         if method == "__setitem__":
+            if content and rnd.random() < 0.15:
+                k, v = rnd.choice(content)
+                y = X.lookalike(rnd, v)
+                if y is not None:
+                    return [k, y]
+                y = X.lookalike(rnd, k)
+                if y is not None and G.is_hashable(y):
+                    return [y, v]
             return [key(), val()]
         if method in ("clear", "popitem"):
             return []
@@ -150,6 +269,15 @@ def gen_args(rnd, kind, method, f, content, ctx):
     cands = [[], [("int", 0)], [("int", 1)], [("list", [("int", 5)])], [("int", 0), ("int", 5)],
              [("dict", [(("str", "k"), ("int", 9))])], [("str", "a")], [("str", "a"), ("int", 1)]]
     return rnd.choice(cands)
+
+
+def split_args(ga):
+    """gen_args result -> (args, kwargs)."""
+    if ga is None:
+        return [("int", 0)], {}
+    if isinstance(ga, tuple):
+        return list(ga[0]), dict(ga[1])
+    return list(ga), {}
 
 
 def scrub(v):
@@ -171,17 +299,24 @@ def scrub_op(op):
     if "value" in op:
         op["value"] = scrub(op["value"])
     if "args" in op:
-        op["args"] = [scrub(a) for a in op["args"]]
+        op["args"] = [X.map_values(a, scrub) for a in op["args"]]
+    if op.get("kwargs"):
+        op["kwargs"] = {k: X.map_values(a, scrub) for k, a in op["kwargs"].items()}
     return op
 
 
 def make_instance(rnd, cast, ctx, tries=12):
     cls = ctx.classes[cast["name"]]
+    fields = ctx.all_fields(cast["name"])
+    view = cast
+    if cast.get("base"):
+        # inherited fields count: generate keyword arguments over all of them, required as the real class resolves it
+        view = dict(cast, fields=fields, required=ctx.resolved(cast["name"])["required"])
     for _ in range(tries):
-        kw = S.gen_kwargs(rnd, cast, ctx)
-        hk = cast.get("hook")
+        kw = S.gen_kwargs(rnd, view, ctx)
+        hk = ctx.hook_of(cast["name"])
         if hk and hk[0] == "set" and not any(k == hk[1] for k, _ in kw):
-            fd = [f for f in cast["fields"] if f["name"] == hk[1]][0]
+            fd = [f for f in fields if f["name"] == hk[1]][0]
             kw.append((fd["name"], G.gen_valid(rnd, fd["field"], ctx.instances)))
         kw = [(k, scrub(v)) for k, v in kw]
         try:
@@ -270,22 +405,22 @@ def hook_fails(x):
 
 # ------------------------------------------------------------------ performing operations
 
-def base_result(handle, kind, method, args_r, ctx):
+def base_result(handle, kind, method, op, ctx):
     """What the base type's method does to a plain copy of the handle's content (CPython is the oracle):
     ("ok", reified new container) | ("raise", class name).  A call the wrapper's own signature rejects is a
-    TypeError before anything runs."""
+    TypeError before anything runs.  `op` carries args / kwargs (realised afresh: iterators are single use)."""
     plain = BASE[kind](handle)
-    args = [G.unreify(a, ctx.classes) for a in args_r]
+    args, kwargs = X.realize_call(op, ctx.classes)
     own = type(handle).__dict__.get(method)
     if own is not None:
         try:
-            inspect.signature(own).bind(handle, *args)
+            inspect.signature(own).bind(handle, *args, **kwargs)
         except TypeError:
             return ("raise", "TypeError")
         except ValueError:
             pass
     try:
-        getattr(plain, method)(*args)
+        getattr(plain, method)(*args, **kwargs)
     except Exception as ex:  # noqa
         return ("raise", E.exn_name(ex))
     return ("ok", E.reify(plain, S.struct_attrs))
@@ -310,18 +445,27 @@ def perform(x, op, ctx, handles):
                 h = getattr(x, name)
                 if handles is not None:
                     handles[name] = h
+            if op.get("aug"):
+                h = getattr(x, name)          # `x.f += v` always reads the field afresh
             extra["live"] = h is x.__dict__.get(name)
-            extra["base"] = base_result(h, op["kind"], op["method"], op["args"], ctx)
-            args = [G.unreify(a, ctx.classes) for a in op["args"]]
+            extra["base"] = base_result(h, op["kind"], op["method"], op, ctx)
+            args, kwargs = X.realize_call(op, ctx.classes)
             meth = getattr(h, op["method"])
-            call = lambda: meth(*args)
+            if op.get("aug"):
+                # the statement `x.f += v` / `x.f *= n` / `x.f |= d`: in-place dunder, then the result is assigned
+                def call():
+                    r = meth(*args, **kwargs)
+                    extra["aug_mid"] = reify_state(x)      # the dunder returned; now its result is assigned
+                    setattr(x, name, r)
+            else:
+                call = lambda: meth(*args, **kwargs)
         elif k == "nested":
             outer = getattr(x, op["name"])
             inner = outer[G.unreify(op["sel"], ctx.classes)]
             extra["inner_type"] = type(inner).__name__
-            args = [G.unreify(a, ctx.classes) for a in op["args"]]
+            args, kwargs = X.realize_call(op, ctx.classes)
             meth = getattr(inner, op["method"])
-            call = lambda: meth(*args)
+            call = lambda: meth(*args, **kwargs)
         else:
             raise ValueError(op)
     except Exception as ex:  # noqa  the operation cannot be set up (e.g. field unset): not an operation
@@ -339,7 +483,10 @@ def op_src(op):
         return "x.%s = %s" % (op["name"], G.py_src(op["value"]))
     if k == "del":
         return "del x[%r]" % op["name"]
-    args = ", ".join(G.py_src(a) for a in op["args"])
+    args = X.call_args_src(op)
+    if k == "call" and op.get("aug"):
+        sym = {"__iadd__": "+=", "__imul__": "*=", "__ior__": "|="}.get(op["method"], op["method"])
+        return "x.%s %s %s" % (op["name"], sym, args)
     if k == "call":
         return "x.%s.%s(%s)" % (op["name"], op["method"], args)
     return "x.%s[%s].%s(%s)" % (op["name"], G.py_src(op["sel"]), op["method"], args)
@@ -396,6 +543,8 @@ class History:
         self.steps = []             # dicts: op, out, extra, post (reified state or None if unchanged)
         self.py_findings = []       # (step index, key, what)
         self.cut = False
+        self.origin = "ctor"        # how the starting instance was obtained from the constructed one
+        self.keep = None
 
 
 def field_cast(cast_fields, name):
@@ -431,21 +580,30 @@ def gen_op(rnd, x, fields, ctx, tables, allow_nested=True, safe_only=False):
                 i = rnd.randrange(len(content))
                 sel, icontent = ("int", i), content[i]
             method = rnd.choice(tables[ikind])[0]
-            args = gen_args(rnd, ikind, method, g, icontent[1] if len(icontent) > 1 else [], ctx)
-            if args is None:
-                args = [("int", 0)]
-            return {"op": "nested", "name": fd["name"], "okind": kind, "ikind": ikind, "sel": sel,
-                    "method": method, "args": args}
+            args, kwargs = split_args(gen_args(rnd, ikind, method, g, icontent[1] if len(icontent) > 1 else [], ctx))
+            op = {"op": "nested", "name": fd["name"], "okind": kind, "ikind": ikind, "sel": sel,
+                  "method": method, "args": args}
+            if kwargs:
+                op["kwargs"] = kwargs
+            return op
         method = rnd.choice(tables[kind])[0]
-        args = gen_args(rnd, kind, method, f, content, ctx)
-        if args is None:
-            args = [("int", 0)]
-        return {"op": "call", "name": fd["name"], "kind": kind, "method": method, "args": args}
+        args, kwargs = split_args(gen_args(rnd, kind, method, f, content, ctx))
+        op = {"op": "call", "name": fd["name"], "kind": kind, "method": method, "args": args}
+        if kwargs:
+            op["kwargs"] = kwargs
+        if method in ("__iadd__", "__imul__", "__ior__") and rnd.random() < 0.5:
+            op["aug"] = True          # the statement form: x.f += v (dunder, then assignment of its result)
+        return op
     if r < 0.90 or not fields:
         if fields and rnd.random() < 0.93:
             fd = rnd.choice(fields)
             f = fd["field"]
             q = rnd.random()
+            if q < 0.12 and fd["name"] in state:
+                # a value Python's == cannot tell from the stored one, but of another type somewhere inside
+                y = X.lookalike(rnd, E.reify(state[fd["name"]], S.struct_attrs))
+                if y is not None:
+                    return {"op": "set", "name": fd["name"], "value": y}
             try:
                 if q < 0.5:
                     v = G.gen_valid(rnd, f, ctx.instances)
@@ -463,7 +621,35 @@ def gen_op(rnd, x, fields, ctx, tables, allow_nested=True, safe_only=False):
     return {"op": "del", "name": rnd.choice(names)}
 
 
-def run_history(rnd, cast, ctx, tables, nops, mode, ops=None, kwargs=None, safe_only=False):
+def closing_ops(rnd, x, fields, ctx, tables):
+    state = dict(public_attrs(x))
+    out = []
+    for fd in fields:
+        f = fd["field"]
+        kind = kind_of(f)
+        if not kind or fd["name"] not in state or inner_field(f, 0) is None or rnd.random() < 0.4:
+            continue
+        try:
+            content = E.reify(state[fd["name"]], S.struct_attrs)[1]
+            names = [m for m, _ in tables[kind]]
+            if kind == "dict":
+                k = gen_key(rnd, f, True, ctx, content)
+                v = gen_item(rnd, f, False, ctx)
+                cands = [("__setitem__", [k, v]), ("update", [("dict", [(k, v)])]), ("setdefault", [k, v])]
+            else:
+                v = gen_item(rnd, f, False, ctx, len(content))
+                cands = [("append", [v]), ("insert", [("int", len(content)), v]), ("extend", [("list", [v])]),
+                         ("__iadd__", [["x:iter", [v]]])]
+            cands = [c for c in cands if c[0] in names]
+            if cands:
+                m, args = rnd.choice(cands)
+                out.append({"op": "call", "name": fd["name"], "kind": kind, "method": m, "args": args})
+        except Exception:  # noqa  generator limitation
+            continue
+    return out
+
+
+def run_history(rnd, cast, ctx, tables, nops, mode, ops=None, kwargs=None, safe_only=False, origin=None):
     """Generates (or, when ops is given, replays) a history on a fresh valid instance."""
     cls = ctx.classes[cast["name"]]
     fields = ctx.all_fields(cast["name"])
@@ -479,11 +665,38 @@ def run_history(rnd, cast, ctx, tables, nops, mode, ops=None, kwargs=None, safe_
         except Exception:  # noqa
             return None
     h = History(cast, kwargs, mode)
+    if origin is None:
+        origin = rnd.choice(ORIGINS) if (rnd is not None and ops is None) else "ctor"
+    if origin != "ctor":
+        x0 = x
+        try:
+            y = derive(x0, origin)
+            if type(y) is not type(x0) or canon(reify_state(y)) != canon(reify_state(x0)) or not (y == x0):
+                raise ValueError("the copy differs")      # C11's subject, not C03's: start from the constructed one
+            x = y
+            h.keep = x0          # the original stays alive: a wrapper of the copy bound to it would write there
+        except Exception:  # noqa
+            origin = "ctor"
+    h.origin = origin
     h.init = reify_state(x)
     handles = {} if mode == "reuse" else None
     i = 0
-    while (ops is None and i < nops) or (ops is not None and i < len(ops)):
-        op = ops[i] if ops is not None else scrub_op(gen_op(rnd, x, fields, ctx, tables, safe_only=safe_only))
+    closing = None
+    while True:
+        if ops is not None:
+            if i >= len(ops):
+                break
+            op = ops[i]
+        elif i < nops:
+            op = scrub_op(gen_op(rnd, x, fields, ctx, tables, safe_only=safe_only))
+        else:
+            # closing probes: after the history (failed operations included) every typed container field must still
+            # validate -- one mutator call with a corrupted argument per such field
+            if closing is None:
+                closing = [scrub_op(o) for o in closing_ops(rnd, x, fields, ctx, tables)]
+            if not closing:
+                break
+            op = closing.pop(0)
         i += 1
         pre_state = reify_state(x)
         before = snapshot(x, fnames)
@@ -508,11 +721,29 @@ def run_history(rnd, cast, ctx, tables, nops, mode, ops=None, kwargs=None, safe_
                                        {k for k, v in post_state if canon(dict(pre_state).get(k)) != canon(v)})
                 has = op["op"] in ("set", "call") and cast_has_hook(ctx, cast) and hook_fails(x) \
                     and changed_names in ([op["name"]], [])
-                h.py_findings.append((idx, finding_key(op, "changed-after-raise", tables, ctag, has),
-                                      "%s raised %s but the instance changed (%s differ)" % (op_src(op), out[1], ",".join(diff))))
+                key = finding_key(op, "changed-after-raise", tables, ctag, has)
+                what = "%s raised %s but the instance changed (%s differ)" % (op_src(op), out[1], ",".join(diff))
+                if extra.get("aug_mid") is not None:
+                    # `x.f += v`: the in-place dunder went through (validated, stored) and the assignment of its result
+                    # -- the value the field itself just stored -- was rejected
+                    b = extra.get("base")
+                    path = collision_path(fcast, b[1] if b and b[0] == "ok" else None,
+                                          dict(extra["aug_mid"]).get(op["name"]), ctx)
+                    if path:
+                        key = "C03/stored-normal-form-invalid/normalised-collision/" + ".".join(path)
+                    else:
+                        key = "C03/%s.%s/aug-assign/stored-value-rejected-on-reassignment" % (op["kind"], op["method"])
+                    what = ("%s: the in-place operator validated and stored %s, then the statement's own assignment of "
+                            "that stored value raised %s: the field rejects what it has just stored" % (
+                                op_src(op), G.py_src(dict(extra["aug_mid"]).get(op["name"], ("none",))), out[1]))
+                h.py_findings.append((idx, key, what))
                 h.cut = True
             if not allowed_exception(op, out, extra):
-                h.py_findings.append((idx, finding_key(op, "exception-class:" + out[1], tables, ctag),
+                ekey = finding_key(op, "exception-class:" + out[1], tables, ctag)
+                if out[1] == "InvalidOperation" and X.op_has_nonfinite(op):
+                    # NaN / infinity handed to a validator that compares it with a Decimal bound
+                    ekey = "C03/nonfinite-number/exception-class:InvalidOperation"
+                h.py_findings.append((idx, ekey,
                                       "%s raised %s, which is neither TypeError/ValueError nor the container's own "
                                       "IndexError/KeyError for this call" % (op_src(op), out[1])))
         else:
@@ -521,6 +752,100 @@ def run_history(rnd, cast, ctx, tables, nops, mode, ops=None, kwargs=None, safe_
         if h.cut:
             break
     return h
+
+
+def converted(g, x, ctx):
+    """The normal form the item / key field g ALONE stores for x on the real library (reified), or None when g
+    rejects x."""
+    try:
+        T = S.single_field_class(g, ctx)
+        return E.reify(T(f=G.unreify(x, ctx.classes)).f, S.struct_attrs)
+    except Exception:  # noqa
+        return None
+
+
+def _images_collide(g, elems, stored_elems, ctx):
+    """Do the supplied elements, pairwise distinct for Python, coincide after g's conversion -- and is what was stored
+    exactly the set of their images?"""
+    if g is None or len(G.dedup(list(elems))) != len(elems):
+        return False
+    imgs = [converted(g, x, ctx) for x in elems]
+    if any(i is None for i in imgs):
+        return False
+    distinct = G.dedup(imgs)
+    if len(distinct) == len(imgs):
+        return False
+    return sorted(map(repr, map(G.py_key, distinct))) == sorted(map(repr, map(G.py_key, G.dedup(list(stored_elems)))))
+
+
+def collision_path(f, sup, sto, ctx):
+    """Root cause F20 (collection constraints are checked on the supplied elements, the elements are converted
+    afterwards): the path of declaration kinds from the field down to a collection whose supplied elements / keys
+    are distinct but coincide after the item field's conversion (so the STORED collection has duplicates under
+    uniqueItems, or fewer entries than were counted against minItems).  None when there is no such collection: any
+    other invalid stored normal form is a different defect."""
+    if f is None or sup is None or sto is None:
+        return None
+    t = f.get("t")
+    seq = ("list", "deque", "tuple")
+    if t in ("allof", "anyof", "oneof"):
+        for g in f.get("fs") or []:
+            r = collision_path(g, sup, sto, ctx)
+            if r:
+                return [t] + r
+        return None
+    if t in ("seqeach", "seqpos", "tuple"):
+        if sup[0] not in seq or sto[0] not in seq:
+            return None
+        a, b = list(sup[1]), list(sto[1])
+        if len(a) != len(b):
+            return None
+        if t == "seqeach":
+            fs = [f["item"]] * len(a)
+        elif t == "tuple" and len(f["items"]) == 1:
+            fs = [f["items"][0]] * len(a)
+        else:
+            fs = (list(f["items"]) + [None] * len(a))[:len(a)]
+        if f.get("uniq") and len(G.dedup(a)) == len(a) and len(G.dedup(b)) < len(b):
+            imgs = [converted(g, x, ctx) if g is not None else x for g, x in zip(fs, a)]
+            if all(i is not None for i in imgs) and len(G.dedup(imgs)) < len(imgs):
+                return [t + ":uniqueItems"]
+        for g, x, y in zip(fs, a, b):
+            r = collision_path(g, x, y, ctx)
+            if r:
+                return [t] + r
+        return None
+    if t == "set":
+        if sup[0] != "set" or sto[0] != "set":
+            return None
+        if len(sto[2]) < len(sup[2]) and _images_collide(f.get("item"), list(sup[2]), list(sto[2]), ctx):
+            return ["set:size"]
+        return None
+    if t == "mapkv":
+        if sup[0] != "dict" or sto[0] != "dict":
+            return None
+        a, b = list(sup[1]), list(sto[1])
+        if len(b) < len(a):
+            if _images_collide(f["kf"], [k for k, _ in a], [k for k, _ in b], ctx):
+                return ["mapkv:size"]
+            return None
+        if len(a) != len(b):
+            return None
+        for (k1, v1), (k2, v2) in zip(a, b):
+            r = collision_path(f["kf"], k1, k2, ctx) or collision_path(f["vf"], v1, v2, ctx)
+            if r:
+                return [t] + r
+        return None
+    return None
+
+
+def stored_nf_key(ctag, fc, supplied, stored, ctx):
+    """Key of "validation stored a value the declaration does not admit": by ROOT CAUSE where it is the known one
+    (conversion collision, wherever the collection sits), by field kind and symptom otherwise."""
+    path = collision_path(fc, supplied, stored, ctx)
+    if path:
+        return "C03/stored-normal-form-invalid/normalised-collision/" + ".".join(path)
+    return "C03/stored-normal-form-invalid/%s/%s" % (ctag, nf_reason(fc, stored))
 
 
 def nf_reason(f, stored):
@@ -539,10 +864,10 @@ def nf_reason(f, stored):
     if items is None:
         return "other"
     if f.get("uniq") and tag in ("list", "deque", "tuple") and len(G.dedup(items)) != len(items):
-        return "duplicates-after-normalisation"
+        return "duplicates-in-stored-value"
     lo = (f.get("sz") or [None, None])[0]
     if lo is not None and tag in ("set", "dict") and len(items) < lo:
-        return "size-after-normalisation"
+        return "stored-size-below-minItems"
     subs = []
     if t in ("seqeach", "set") and f.get("item"):
         subs = [(f["item"], x) for x in items]
@@ -550,13 +875,36 @@ def nf_reason(f, stored):
         fs = f["items"]
         subs = [(fs[i] if i < len(fs) else (fs[0] if t == "tuple" and len(fs) == 1 else None), x) for i, x in enumerate(items)]
     elif t == "mapkv":
-        subs = [(f["vf"], x) for x in items]
+        subs = [(f["vf"], x) for x in items] + [(f["kf"], k) for k, _ in stored[1]]
+    elif t in ("allof", "anyof", "oneof"):
+        subs = [(g, stored) for g in f.get("fs") or []]
     for g, x in subs:
         if g is not None:
             r = nf_reason(g, x)
             if r != "other":
                 return r
     return "other"
+
+
+def hook_ok_py(hook, state):
+    """The class's hook (structgen's small hook language) evaluated on a reified state {name: value}."""
+    if not hook:
+        return True
+    if hook[0] == "le":
+        a, b = state.get(hook[1]), state.get(hook[2])
+        if a and b and a[0] == "int" and b[0] == "int":
+            return a[1] <= b[1]
+        return True
+    return hook[1] in state
+
+
+def post_state_at(h, k):
+    """Reified state after step k of the history."""
+    st = h.init
+    for s in h.steps[:k + 1]:
+        if s["post"] is not None:
+            st = s["post"]
+    return st
 
 
 def cast_has_hook(ctx, cast):
@@ -567,6 +915,22 @@ def cast_has_hook(ctx, cast):
 
 def gen_cast(rnd, name, ctx):
     c = S.gen_class(rnd, name, ctx.class_names()[:3], container_bias=0.65, max_depth=2)
+    if rnd.random() < 0.12:
+        # a subclass of an earlier generated class: inherited typed containers, inherited / overridden hook
+        bases = [b for b in ctx.asts if b["name"].startswith("M") and not b.get("base") and not b.get("immutable")]
+        if bases:
+            b = rnd.choice(bases)
+            taken = {fd["name"] for fd in b["fields"]}
+            c["base"] = b["name"]
+            if c.get("additional") is None:
+                c["additional"] = bool(rnd.random() < 0.3)     # _additional_properties is inherited: state it
+            c["fields"] = [fd for fd in c["fields"] if fd["name"] not in taken or rnd.random() < 0.3]
+            if c.get("required") is not None:
+                c["required"] = [n for n in c["required"] if any(fd["name"] == n for fd in c["fields"])]
+            if c.get("hook") and not all(any(fd["name"] == n for fd in c["fields"]) for n in c["hook"][1:]):
+                c["hook"] = None
+            if ctx.hook_of(b["name"]):
+                c["hook"] = None          # keep the inherited hook
     names = [fd["name"] for fd in c["fields"]]
     for fd in c["fields"]:
         if kind_of(fd["field"]) and rnd.random() < 0.08:
@@ -588,6 +952,24 @@ def gen_cast(rnd, name, ctx):
     return c
 
 
+CLASS_MODULE = "harness_c03_classes"
+
+
+def publish(ctx, name):
+    """Makes a generated class importable (pickle looks classes up by module and name)."""
+    import sys
+    import types
+    mod = sys.modules.get(CLASS_MODULE)
+    if mod is None:
+        mod = sys.modules[CLASS_MODULE] = types.ModuleType(CLASS_MODULE)
+    cls = ctx.classes[name]
+    try:
+        cls.__module__ = CLASS_MODULE
+        setattr(mod, name, cls)
+    except Exception:  # noqa
+        pass
+
+
 def add_class(ctx, cast):
     try:
         exec(S.class_src(cast), ctx.ns)
@@ -595,7 +977,31 @@ def add_class(ctx, cast):
         return False
     ctx.asts.append(cast)
     ctx.classes[cast["name"]] = ctx.ns[cast["name"]]
+    for c in S.Context.BASE:
+        publish(ctx, c["name"])
+    publish(ctx, cast["name"])
     return True
+
+
+ORIGINS = ["ctor"] * 14 + ["deepcopy", "deepcopy", "pickle", "pickle", "clone", "clone"]
+ORIGIN_SRC = {"deepcopy": "import copy\nx = copy.deepcopy(x)", "pickle": "import pickle\nx = pickle.loads(pickle.dumps(x))",
+              "clone": "x = x.shallow_clone_with_overrides()", "copy": "import copy\nx = copy.copy(x)"}
+
+
+def derive(x, origin):
+    """The starting instance of a history: the constructed one, or a valid instance obtained from it by one of the
+    library's / Python's copying routes (the wrappers of the copy must belong to the copy)."""
+    import copy
+    import pickle
+    if origin == "deepcopy":
+        return copy.deepcopy(x)
+    if origin == "pickle":
+        return pickle.loads(pickle.dumps(x))
+    if origin == "clone":
+        return x.shallow_clone_with_overrides()
+    if origin == "copy":
+        return copy.copy(x)
+    return x
 
 
 # ------------------------------------------------------------------ emission
@@ -645,12 +1051,42 @@ def emit_history(h, ctx):
         G.emit_table(tbl), h.cast["name"], emit_attrs(h.init), E.lst(["\n   " + s for s in steps]))
 
 
-def coq_header(ctx):
+def coq_header(ctx, names=None):
+    """Class definitions and environment.  names: the classes a shard needs (their ancestors, the classes their
+    fields refer to and the base classes are added); None = all."""
+    if names is None:
+        asts = list(ctx.asts)
+    else:
+        need = {c["name"] for c in S.Context.BASE}
+        todo = list(names)
+        while todo:
+            n = todo.pop()
+            if n in need:
+                continue
+            need.add(n)
+            c = ctx.ast(n)
+            if c.get("base"):
+                todo.append(c["base"])
+            todo += [r for fd in c["fields"] for r in refs_in(fd["field"])]
+        asts = [c for c in ctx.asts if c["name"] in need]
     lines = [HEADER]
-    for c in ctx.asts:
+    for c in asts:
         lines.append("Definition cd_%s : classdef := %s." % (c["name"], ctx.emit_classdef(c["name"])))
-    lines.append("Definition env0 : env := %s." % E.lst(["cd_%s" % c["name"] for c in ctx.asts]))
+    lines.append("Definition env0 : env := %s." % E.lst(["cd_%s" % c["name"] for c in asts]))
     return "\n".join(lines) + "\n"
+
+
+def refs_in(f):
+    out = []
+    if f.get("t") == "ref":
+        out.append(f["cls"])
+    for key in ("item", "kf", "vf"):
+        if isinstance(f.get(key), dict):
+            out += refs_in(f[key])
+    for key in ("items", "fs"):
+        for g in f.get(key) or []:
+            out += refs_in(g)
+    return out
 
 
 def evaluate(histories, ctx, tag="c03", per=40):
@@ -661,13 +1097,15 @@ def evaluate(histories, ctx, tag="c03", per=40):
         items = [emit_history(h, ctx) for h in histories[s:s + per]]
         body = "Definition cases : list hcase := %s.\n" % E.lst(["\n " + i for i in items])
         body += "Eval vm_compute in (map (hist_mismatch env0) cases).\n"
-        body += "Eval vm_compute in (map (hist_spec_bad env0) cases).\n"
+        # the state clauses (valid after success, unchanged after a raise); the exception-class clause is judged on
+        # the Python side, where "the container's usual exception" is known from the base type's own behaviour
+        body += "Eval vm_compute in (map (hist_state_bad env0) cases).\n"
         body += "Eval vm_compute in (map (hist_nf_bad env0) cases).\n"
         body += "Eval vm_compute in (indices_where (fun h => negb (start_valid env0 h)) cases 0).\n"
         body += "Eval vm_compute in (indices_where (hyps_hold env0) cases 0).\n"
         body += "Eval vm_compute in (indices_where (theorem_contradicted env0) cases 0).\n"
-        shards.append(body)
-    res = core.eval_cases(shards, tag, coq_header(ctx))
+        shards.append(coq_header(ctx, {h.cast["name"] for h in histories[s:s + per]}) + body)
+    res = core.eval_cases(shards, tag, "")
     out = {"mismatch": {}, "spec_bad": {}, "nf_bad": {}, "start_invalid": [], "hyps": [], "contradicted": []}
     for si, (rc, so, se) in enumerate(res):
         vals = core.parse_eval(so)
@@ -693,8 +1131,8 @@ def evaluate(histories, ctx, tag="c03", per=40):
 
 def table_status():
     """Which entries of the CURRENT generated tables are not safe, as Coq computes it."""
-    body = ("Eval vm_compute in (unsafe_idx list_mutators).\nEval vm_compute in (unsafe_idx deque_mutators).\n"
-            "Eval vm_compute in (unsafe_idx dict_mutators).\n")
+    body = ("Eval vm_compute in (unsafe_idx (table_of 0%N)).\nEval vm_compute in (unsafe_idx (table_of 1%N)).\n"
+            "Eval vm_compute in (unsafe_idx (table_of 2%N)).\n")
     (rc, so, se), = core.eval_cases([body], "c03tbl", HEADER)
     vals = core.parse_eval(so)
     if rc != 0 or len(vals) != 3:
@@ -733,7 +1171,58 @@ DIRECTED_ARGS = {
              [("dict", [(("int", 1), ("int", 2))])], [("dict", [(("str", "n"), ("int", 2)), (("str", "o"), ("int", 2))])],
              [("str", "n"), ("int", 5)], [("str", "n")], [("str", "k"), ("int", 4)]],
 }
-DIRECTED_ARGS["deque"] = DIRECTED_ARGS["list"]
+# calls with slices, keyword arguments, one-shot / failing iterators, key functions (dicts: {"args", "kwargs"})
+DIRECTED_ARGS["deque"] = DIRECTED_ARGS["list"] + [
+    [["x:failiter", [("int", 9), ("int", 8)]]], [["x:iter", [("str", "x")]]], [("tuple", [("str", "x")])],
+    [("int", -1), ("str", "x")], [("int", -1)]]
+DIRECTED_ARGS["list"] = DIRECTED_ARGS["list"] + [
+    [["x:slice", 0, 1, None], ("list", [("str", "x")])], [["x:slice", 0, 1, None], ("list", [])],
+    [["x:slice", 1, None, None], ("list", [])], [["x:slice", None, None, None], ("list", [("int", 9), ("int", 9), ("int", 9)])],
+    [["x:slice", 5, None, None], ("list", [("int", 9), ("int", 8)])], [["x:slice", None, None, 2], ("list", [("str", "x"), ("str", "y")])],
+    [["x:slice", None, None, 2], ("list", [("str", "x")])],
+    [["x:slice", 0, 2, None]], [["x:slice", None, None, 2]], [["x:slice", 1, None, None]], [["x:slice", None, None, None]],
+    [["x:slice", 0, 1, None], ["x:failiter", [("int", 9)]]], [["x:slice", 0, 1, None], ["x:iter", [("str", "x")]]],
+    [["x:failiter", [("int", 9), ("int", 8)]]], [["x:iter", [("str", "x")]]], [("tuple", [("str", "x")])],
+    [("int", -1), ("str", "x")], [("int", -1)],
+    {"args": [], "kwargs": {"key": ["x:keyseq", [("int", 2), ("int", 1), ("str", "a"), ("int", 0)]]}},
+    {"args": [], "kwargs": {"key": ["x:keyseq", [("int", 2), ("int", 1), ("str", "a"), ("int", 0)]], "reverse": ("bool", True)}},
+    {"args": [], "kwargs": {"key": ["x:keyseq", [("int", 3), ("int", 2), ("int", 1)]]}},
+    {"args": [], "kwargs": {"reverse": ("bool", True)}}]
+DIRECTED_ARGS["dict"] = DIRECTED_ARGS["dict"] + [
+    {"args": [], "kwargs": {"n": ("int", 2), "o": ("int", 3)}}, {"args": [], "kwargs": {"k": ("str", "x")}},
+    {"args": [("dict", [(("str", "n"), ("int", 2))])], "kwargs": {"o": ("str", "x")}},
+    [("list", [("tuple", [("str", "n"), ("int", 2)]), ("tuple", [("str", "o"), ("str", "x")])])],
+    [("list", [("tuple", [("str", "n"), ("int", 2)]), ("tuple", [("str", "o"), ("int", 3)])])],
+    [["x:failiter", [("tuple", [("str", "n"), ("int", 2)])]]], [["x:iter", [("tuple", [("str", "n"), ("str", "x")])]]],
+    [["x:iter", [("tuple", [("int", 3), ("int", 2)])]]],
+    [("dict", [(("str", "k"), ("flt", 1, 0))])], [("str", "k"), ("flt", 1, 0)], [("str", "k"), ("bool", True)],
+    [("dict", [(("str", "k"), ("dec", 1, 0))])]]
+
+
+def has_opaque(r):
+    """Does the reified value hold an object the reifier cannot represent (a slice / generator / function that a
+    directed call stored as an ELEMENT)?  Such calls are not part of the witness family."""
+    t = r[0]
+    if t == "other":
+        return r[1] not in ("float", "complex", "bytes", "object", "Decimal")
+    if t in ("list", "tuple", "deque"):
+        return any(has_opaque(x) for x in r[1])
+    if t == "set":
+        return any(has_opaque(x) for x in r[2])
+    if t == "dict":
+        return any(has_opaque(k) or has_opaque(v) for k, v in r[1])
+    return False
+
+
+def directed_op(kind, method, a):
+    op = {"op": "call", "name": "a", "kind": kind, "method": method}
+    if isinstance(a, dict):
+        op["args"] = list(a["args"])
+        if a.get("kwargs"):
+            op["kwargs"] = dict(a["kwargs"])
+    else:
+        op["args"] = list(a)
+    return op
 
 
 def directed_entry(kind, method, ctx, tables):
@@ -749,15 +1238,22 @@ def directed_entry(kind, method, ctx, tables):
         cast = ctx.ast(cname)
         for start in starts:
             for args in DIRECTED_ARGS[kind]:
-                op = {"op": "call", "name": "a", "kind": kind, "method": method, "args": args}
-                # only calls that would leave an invalid value if they ran unvalidated
+                op = directed_op(kind, method, args)
+                # calls that would leave an invalid value if they ran unvalidated, and calls the base type's
+                # method fails on (it may fail half way: list.sort, extend/update from a failing iterator)
                 cls = ctx.classes[cname]
                 try:
                     probe = cls(a=G.unreify(start, ctx.classes))
                 except Exception:  # noqa
                     continue
-                b = base_result(probe.a, kind, method, args, ctx)
+                b = base_result(probe.a, kind, method, op, ctx)
                 if b[0] != "ok":
+                    if b[1] in ("TypeError", "ValueError") and X.needs_prelude([op]):
+                        h = run_history(None, cast, ctx, tables, 1, "reread", ops=[op], kwargs=[("a", start)])
+                        if h is not None and h.py_findings:
+                            return h
+                    continue
+                if has_opaque(b[1]):
                     continue
                 try:
                     cls(a=G.unreify(b[1], ctx.classes))
@@ -866,6 +1362,453 @@ def directed_extfields(rep):
     return n
 
 
+# ------------------------------------------------------------------ a hook that reads the containers
+
+HOOKC_SRC = """
+from typedpy import Structure, Array, Deque, Map, Integer, String
+from collections import deque
+class WHC(Structure):
+    a = Array[Integer]
+    d = Deque[Integer]
+    m = Map[String, Integer]
+    q = Integer
+    def __validate__(self):
+        for n in ('a', 'd', 'm'):
+            if len(self.__dict__.get(n, ())) > self.q:
+                raise ValueError('%s holds more than q entries' % n)
+"""
+
+
+def directed_container_hook(rep, tables):
+    """The class's __validate__ relates the SIZE of a typed container to another field (the model's hook language
+    has no such hook, so this stream is judged on the implementation alone).  A growing mutator with a valid item
+    is rejected by the hook (whether the instance changed then is the known hook-after-store defect); whatever
+    happened, the field must still be validated afterwards: an invalid item is rejected and changes nothing."""
+    ns = {}
+    exec(HOOKC_SRC, ns)
+    WHC = ns["WHC"]
+    grow = {"list": [("append", (2,)), ("extend", ([2, 3],)), ("insert", (0, 2)), ("__iadd__", ([2],)), ("__imul__", (2,)),
+                     ("__setitem__", (slice(1, 1), [2, 3]))],
+            "deque": [("append", (2,)), ("appendleft", (2,)), ("extend", ([2, 3],)), ("extendleft", ([2],)), ("insert", (0, 2)),
+                      ("__iadd__", ([2],)), ("__imul__", (2,))],
+            "dict": [("__setitem__", ("n", 2)), ("update", ({"n": 2},)), ("setdefault", ("n", 2)), ("__ior__", ({"n": 2},))]}
+    bad = {"list": [("append", ("x",)), ("__setitem__", (0, "x")), ("extend", (["x"],)), ("insert", (0, None))],
+           "deque": [("append", ("x",)), ("appendleft", (2.5,)), ("__setitem__", (0, "x")), ("extend", (["x"],))],
+           "dict": [("__setitem__", ("k", "x")), ("update", ({"k": 2.5},)), ("__setitem__", (5, 1)), ("setdefault", ("z", "x"))]}
+    fld = {"list": "a", "deque": "d", "dict": "m"}
+
+    def state(x):
+        return (list(x.a), list(x.d), dict(x.m), x.q, str(x))
+    for kind in ("list", "deque", "dict"):
+        names = {m for m, _ in tables[kind]}
+        for gm, gargs in grow[kind]:
+            if gm not in names:
+                continue
+            for bm, bargs in bad[kind]:
+                if bm not in names:
+                    continue
+                x = WHC(a=[1], d=collections.deque([1]), m={"k": 1}, q=1)
+                f = fld[kind]
+                before = state(x)
+                try:
+                    getattr(getattr(x, f), gm)(*gargs)
+                    r1 = None
+                except Exception as ex:  # noqa
+                    r1 = type(ex).__name__
+                mid = state(x)
+                rep.count("directed:container-hook", 1, (kind, gm, bm))
+                py = HOOKC_SRC + "x = WHC(a=[1], d=deque([1]), m={'k': 1}, q=1)\nfor call in (lambda: x.%s.%s(*%r), lambda: x.%s.%s(*%r)):\n" \
+                    "    try: call()\n    except Exception as e: print(type(e).__name__, e)\n    print(x)\n" % (f, gm, gargs, f, bm, bargs)
+                robj = {"stream": "container-hook", "python": py}
+                if r1 is not None and mid != before:
+                    rep.finding("C03/hook-after-store/%s.%s/changed-after-raise" % (kind, gm),
+                                "x.%s.%s%r raised %s (hook) but the instance changed: %s" % (f, gm, gargs, r1, mid[4]), robj)
+                try:
+                    getattr(getattr(x, f), bm)(*bargs)
+                    r2 = None
+                except Exception as ex:  # noqa
+                    r2 = type(ex).__name__
+                after = state(x)
+                if r2 is None:
+                    rep.finding("C03/after-hook-failure/%s/invalid-accepted" % kind,
+                                "after x.%s.%s%r (%s), x.%s.%s%r returned normally: the field is no longer validated; %s" % (
+                                    f, gm, gargs, "raised " + r1 if r1 else "returned", f, bm, bargs, after[4]), robj)
+                elif after != mid:
+                    rep.finding("C03/after-hook-failure/%s/changed-after-raise" % kind,
+                                "after x.%s.%s%r, x.%s.%s%r raised %s but the instance changed: %s" % (
+                                    f, gm, gargs, f, bm, bargs, r2, after[4]), robj)
+
+
+# ------------------------------------------------------------------ every exported Field class
+
+FIELD_ARG_CANDIDATES = ["", "items=Integer", "fields=[Integer, String]", "values=[1, 2, 'a']", "clazz=Inner", "maxlen=3",
+                        "items=[String, Integer]", "Inner"]
+
+
+def value_pool():
+    """(label, factory) -- factories, because generators / iterators are single use."""
+    import datetime as dt
+    import decimal as dc
+    lits = ["2020-01-31", "1999-12-01", "junk", "2020-13-45", "10:11:12", "00:00:00", "25:99:99", "noon",
+            "01/31/20 10:11:12", "12/01/99 00:00:00", "13/45/20 10:11:12", "127.0.0.1", "10.0.0.255", "999.1.1.1", "1.2.3",
+            "example.com", "my-host", "-bad-.com!", "a@b.cd", "a@b", '{"a": 1}', "[1, 2]", "{bad json", "abc", "", "a", "x" * 300,
+            0, 1, -1, 7, 2 ** 70, 2.5, -0.5, 1.0, True, False, None, [], [1], ["a", "b"], [1, "a"], {}, {"a": 1}, {1: "a"},
+            (1, "a"), ("a", 1), (), b"xy", complex(1, 2), float("nan")]
+    pool = [(repr(v)[:40], (lambda v=v: v)) for v in lits]
+    pool += [("Decimal('1.5')", lambda: dc.Decimal("1.5")), ("Decimal('2')", lambda: dc.Decimal("2")),
+             ("{1, 2}", lambda: {1, 2}), ("{'a'}", lambda: {"a"}), ("frozenset([1])", lambda: frozenset([1])),
+             ("deque([1, 2])", lambda: collections.deque([1, 2])), ("deque(['a'])", lambda: collections.deque(["a"])),
+             ("date(2020, 1, 31)", lambda: dt.date(2020, 1, 31)), ("datetime(2020, 1, 31, 10, 11, 12)", lambda: dt.datetime(2020, 1, 31, 10, 11, 12)),
+             ("time(10, 11, 12)", lambda: dt.time(10, 11, 12)), ("len", lambda: len), ("lambda: 1", lambda: (lambda: 1)),
+             ("(i for i in [1])", lambda: (i for i in [1])), ("ValueError('x')", lambda: ValueError("x")),
+             ("KeyError", lambda: KeyError), ("Color.RED", lambda: G.Color.RED), ("Size.M", lambda: G.Size.M),
+             ("object()", object)]
+    return pool
+
+
+def fieldclass_sources():
+    """(class name, field source) for every Field class typedpy exports that can be instantiated from a small set
+    of argument candidates -- found by introspection, not listed by hand."""
+    import typedpy
+    out = []
+    for name in sorted(dir(typedpy)):
+        obj = getattr(typedpy, name)
+        if not (isinstance(obj, type) and issubclass(obj, typedpy.Field)):
+            continue
+        for args in FIELD_ARG_CANDIDATES:
+            out.append((name, "%s(%s)" % (name, args)))
+    # a few parameterised forms of the fields whose checks run after the store
+    out += [("DateString", "DateString(date_format='%d/%m/%Y')"), ("TimeString", "TimeString()"),
+            ("DateField", "DateField(date_format='%d/%m/%Y')"), ("DateTime", "DateTime(datetime_format='%Y-%m-%d %H:%M')"),
+            ("String", "String(pattern='^[a-z]+$', maxLength=5)"), ("SizedString", "SizedString(maxlen=2)")]
+    return out
+
+
+def same_obj_state(a, b):
+    if set(a) != set(b):
+        return False
+    for k in a:
+        x, y = a[k], b[k]
+        if x is y:
+            continue
+        try:
+            if type(x) is not type(y) or not (x == y):
+                return False
+        except Exception:  # noqa
+            return False
+    return True
+
+
+def directed_fieldclasses(rep, limit_pairs=6):
+    """For EVERY exported field class: a structure with one such field, values the constructor accepts and values
+    it rejects (found by probing a fixed pool), and every assignment of a rejected value over an accepted one:
+    it must raise TypeError/ValueError and leave the instance as it was.  Catches a field that stores before it
+    checks, whatever field it is."""
+    import typedpy
+    ns = {}
+    exec("from typedpy import *\nfrom typedpy import Structure\nimport typedpy\n"
+         "class Inner(Structure):\n    a = Integer\n    _required = []\n", ns)
+    pool = value_pool()
+    seen_cls = set()
+    n = 0
+    for cname, src in fieldclass_sources():
+        csrc = "class T(Structure):\n    f = %s\n    _required = []\n" % src
+        try:
+            exec(csrc, ns)
+            T = ns["T"]
+            if "f" not in T.get_all_fields_by_name():
+                continue
+        except Exception:  # noqa  not constructible with these arguments
+            continue
+        if (cname, src) in seen_cls:
+            continue
+        good, bad = [], []
+        for label, mk in pool:
+            try:
+                T(f=mk())
+                good.append((label, mk))
+            except Exception:  # noqa
+                bad.append((label, mk))
+        if not good or not bad:
+            rep.stat("directed:field-classes", "no-accepted-or-no-rejected-value:" + cname)
+            continue
+        seen_cls.add((cname, src))
+        rep.stat("directed:field-classes", "class:" + cname)
+        for gl, gmk in good[:2]:
+            step = max(1, len(bad) // limit_pairs)
+            for bl, bmk in bad[::step][:limit_pairs + 2]:
+                try:
+                    x = T(f=gmk())
+                except Exception:  # noqa
+                    continue
+                before = (dict(x.__dict__), str(x))
+                try:
+                    twin_eq = (x == T(f=gmk()))
+                except Exception:  # noqa
+                    twin_eq = None
+                try:
+                    x.f = bmk()
+                    raised = None
+                except Exception as ex:  # noqa
+                    raised = E.exn_name(ex)
+                try:
+                    after = (dict(x.__dict__), str(x))
+                except Exception as ex:  # noqa
+                    after = ({"<str raises>": type(ex).__name__}, "")
+                n += 1
+                rep.count("directed:field-classes", 1, (src, raised or "accepted"))
+                py = ("from typedpy import *\nimport datetime, decimal, collections\n" + csrc +
+                      "x = T(f=%s)\ntry:\n    x.f = %s\nexcept Exception as e: print(type(e).__name__, e)\nprint(x)\n" % (gl, bl))
+                robj = {"stream": "fieldclasses", "field_class": cname, "field": src, "good": gl, "bad": bl, "python": py}
+                changed = not same_obj_state(before[0], after[0]) or before[1] != after[1]
+                if not changed and twin_eq is True:
+                    try:
+                        changed = not (x == T(f=gmk()))
+                    except Exception:  # noqa
+                        pass
+                if raised and changed:
+                    rep.finding("C03/setattr/%s/changed-after-raise" % cname,
+                                "with f = %s: x.f = %s raised %s but x now prints %s (was %s)" % (src, bl, raised, after[1], before[1]), robj)
+                if raised and raised not in ("TypeError", "ValueError", "InvalidStructureErr"):
+                    rep.finding("C03/setattr/%s/exception-class:%s" % (cname, raised),
+                                "with f = %s: x.f = %s raised %s" % (src, bl, raised), robj)
+                if raised is None:
+                    # accepted on assignment although the constructor rejects the same value
+                    try:
+                        T(f=bmk())
+                        ctor_rejects = False
+                    except Exception:  # noqa
+                        ctor_rejects = True
+                    if ctor_rejects and not isinstance(x.__dict__.get("f"), type(None)):
+                        rep.finding("C03/setattr/%s/accepted-what-the-constructor-rejects" % cname,
+                                    "with f = %s: x.f = %s returned normally, T(f=%s) raises" % (src, bl, bl), robj)
+    return n
+
+
+def lookalike_class():
+    I = {"t": "num", "k": "Integer", "s": "Any"}
+    F = {"t": "num", "k": "Float", "s": "Any"}
+    N = {"t": "num", "k": "Number", "s": "Any"}
+    Sx = {"t": "str"}
+    B = {"t": "bool"}
+    nosz = [None, None]
+    seq = lambda k, item: {"t": "seqeach", "k": k, "item": item, "sz": nosz, "uniq": False}
+    fields = [
+        ("i", I, ("int", 1)), ("j", I, ("int", 7)), ("f", F, ("flt", 1, 1)), ("g", F, ("flt", 5, -1)), ("n", N, ("int", 0)),
+        ("b", B, ("bool", True)), ("e", {"t": "enumlit", "values": [("int", 1), ("int", 2), ("str", "a")]}, ("int", 1)),
+        ("li", seq("list", I), ("list", [("int", 0), ("int", 1), ("int", 5)])),
+        ("lf", seq("list", F), ("list", [("flt", 1, 0), ("flt", 5, -1)])),
+        ("ln", seq("list", N), ("list", [("int", 1), ("flt", 5, -1)])),
+        ("lb", seq("list", B), ("list", [("bool", True), ("bool", False)])),
+        ("dq", seq("deque", I), ("deque", [("int", 1), ("int", 2)])),
+        ("lp", {"t": "seqpos", "k": "list", "items": [I, Sx], "sz": nosz, "uniq": False, "additional": None},
+         ("list", [("int", 1), ("str", "a")])),
+        ("lu", {"t": "seqeach", "k": "list", "item": I, "sz": [1, 3], "uniq": True}, ("list", [("int", 1), ("int", 2)])),
+        ("m", {"t": "mapkv", "kf": Sx, "vf": I, "sz": nosz}, ("dict", [(("str", "a"), ("int", 1)), (("str", "b"), ("int", 2))])),
+        ("mk", {"t": "mapkv", "kf": I, "vf": Sx, "sz": nosz}, ("dict", [(("int", 1), ("str", "one")), (("int", 2), ("str", "two"))])),
+        ("mb", {"t": "mapkv", "kf": Sx, "vf": B, "sz": [1, 2]}, ("dict", [(("str", "k"), ("bool", True))])),
+        ("s", {"t": "set", "imm": False, "item": I, "sz": nosz}, ("set", False, [("int", 1), ("int", 2)])),
+        ("t", {"t": "tuple", "items": [I, Sx], "uniq": False}, ("tuple", [("int", 1), ("str", "a")])),
+        ("an", {"t": "anyof", "fs": [I, Sx]}, ("int", 1)),
+        ("al", {"t": "allof", "fs": [I, {"t": "num", "k": "Number", "s": "Any", "max": ("int", 10)}]}, ("int", 1)),
+        ("la", seq("list", {"t": "anyof", "fs": [I, Sx]}), ("list", [("int", 1), ("str", "x")])),
+    ]
+    cast = {"name": "WL", "fields": [{"name": n, "field": f} for n, f, _ in fields], "required": [], "additional": False}
+    return cast, [(n, v) for n, _, v in fields]
+
+
+def directed_lookalike(ctx, tables, rep):
+    """Every way of replacing ONE numeric/bool leaf of a stored value by a value of another type that Python's
+    == cannot tell from it (1 / 1.0 / Decimal(1) / True, dict keys included), through every entry point that can
+    deliver it: attribute assignment, item assignment, slice assignment, update (positional, keyword, pairs), |=,
+    +=.  Enumerated, not sampled.  What each call must do is decided by the model (correspondence) and by the
+    validity of the observed state (Coq); nothing here assumes which of them are rejected."""
+    cast, start = lookalike_class()
+    if "WL" not in ctx.classes and not add_class(ctx, cast):
+        return []
+    cast = ctx.ast("WL")
+    hs = []
+
+    def one(op):
+        h = run_history(None, cast, ctx, tables, 1, "reread", ops=[op], kwargs=start)
+        if h is not None and h.steps:
+            rep.count("directed:lookalike", 0, (op["name"], op["op"], op.get("method"), bool(op.get("aug")),
+                                                 h.steps[0]["out"][0]))
+            hs.append(h)
+
+    for name, v in start:
+        f = field_cast(cast["fields"], name)
+        kind = kind_of(f)
+        for y in X.lookalikes(v, 40):
+            one({"op": "set", "name": name, "value": y})
+        if kind in ("list", "deque"):
+            for i, x in enumerate(v[1]):
+                for y in X.lookalikes(x, 8):
+                    one({"op": "call", "name": name, "kind": kind, "method": "__setitem__", "args": [("int", i), y]})
+                    one({"op": "call", "name": name, "kind": kind, "method": "__setitem__", "args": [("int", i - len(v[1])), y]})
+                    if kind == "list":
+                        one({"op": "call", "name": name, "kind": kind, "method": "__setitem__",
+                             "args": [["x:slice", i, i + 1, None], ("list", [y])]})
+                        one({"op": "call", "name": name, "kind": kind, "method": "__setitem__",
+                             "args": [["x:slice", i, i + 1, None], ["x:iter", [y]]]})
+            for w in X.lookalikes(("list", list(v[1])), 8):
+                if kind == "list":
+                    one({"op": "call", "name": name, "kind": kind, "method": "__setitem__",
+                         "args": [["x:slice", None, None, None], w]})
+        if kind == "dict":
+            for k, x in v[1]:
+                alts = [(k, y) for y in X.lookalikes(x, 8)] + [(y, x) for y in X.lookalikes(k, 8) if G.is_hashable(y)]
+                for k2, x2 in alts:
+                    d = ("dict", [(k2, x2)])
+                    one({"op": "call", "name": name, "kind": "dict", "method": "__setitem__", "args": [k2, x2]})
+                    one({"op": "call", "name": name, "kind": "dict", "method": "update", "args": [d]})
+                    one({"op": "call", "name": name, "kind": "dict", "method": "update", "args": [("list", [("tuple", [k2, x2])])]})
+                    one({"op": "call", "name": name, "kind": "dict", "method": "__ior__", "args": [d]})
+                    one({"op": "call", "name": name, "kind": "dict", "method": "__ior__", "args": [d], "aug": True})
+                    if k2[0] == "str" and k2[1].isidentifier():
+                        one({"op": "call", "name": name, "kind": "dict", "method": "update", "args": [], "kwargs": {k2[1]: x2}})
+            for w in X.lookalikes(v, 8):
+                one({"op": "call", "name": name, "kind": "dict", "method": "update", "args": [w]})
+    return hs
+
+
+def lattice_class():
+    I = {"t": "num", "k": "Integer", "s": "Any"}
+    N10 = {"t": "num", "k": "Number", "s": "Any", "max": ("int", 10)}
+    I5 = {"t": "num", "k": "Integer", "s": "Any", "max": ("int", 5)}
+    S2 = {"t": "str", "max": 2}
+    Sx = {"t": "str"}
+    nosz = [None, None]
+    al = {"t": "allof", "fs": [I, N10]}
+    fields = [
+        ("i", I, ("int", 1)), ("p", {"t": "num", "k": "Integer", "s": "Positive", "mult": 2}, ("int", 2)),
+        ("b", {"t": "bool"}, ("bool", True)), ("s", S2, ("str", "a")),
+        ("al", al, ("int", 1)), ("al2", {"t": "allof", "fs": [N10, I]}, ("int", 1)),
+        ("ao", {"t": "anyof", "fs": [I5, S2]}, ("int", 1)), ("oo", {"t": "oneof", "fs": [I, N10]}, ("flt", 5, -1)),
+        ("nf", {"t": "not", "fs": [Sx]}, ("int", 1)),
+        ("lal", {"t": "seqeach", "k": "list", "item": al, "sz": nosz, "uniq": False}, ("list", [("int", 1)])),
+        ("dao", {"t": "seqeach", "k": "deque", "item": {"t": "anyof", "fs": [I5, S2]}, "sz": [1, 3], "uniq": True}, ("deque", [("int", 1)])),
+        ("mal", {"t": "mapkv", "kf": Sx, "vf": al, "sz": nosz}, ("dict", [(("str", "k"), ("int", 1))])),
+        ("lpo", {"t": "seqpos", "k": "list", "items": [al, S2], "sz": nosz, "uniq": False, "additional": False},
+         ("list", [("int", 1), ("str", "a")])),
+    ]
+    cast = {"name": "WV", "fields": [{"name": n, "field": f} for n, f, _ in fields], "required": [], "additional": False}
+    return cast, [(n, v) for n, _, v in fields]
+
+
+LATTICE = [("int", 0), ("int", 1), ("int", 12), ("int", -1), ("int", 4), ("flt", 5, -1), ("flt", 1, 0), ("str", "x"), ("str", "abc"),
+           ("none",), ("bool", True), ("dec", 1, 0), ("list", [("int", 12)]), ("dict", [(("str", "k"), ("int", 12))])]
+
+
+def directed_lattice(ctx, tables, rep):
+    """Small-scope enumeration: every value of a fixed lattice (numbers around the declared bounds, a float, a
+    Decimal, strings, None, True, containers) assigned to every field of a class whose fields include the multi-field
+    wrappers (AllOf / AnyOf / OneOf / NotField with options that accept-then-reject), alone and as items of typed
+    Array / Deque / Map fields -- by attribute assignment and through append / insert / item assignment / update."""
+    cast, start = lattice_class()
+    if "WV" not in ctx.classes and not add_class(ctx, cast):
+        return []
+    cast = ctx.ast("WV")
+    hs = []
+
+    def one(op):
+        h = run_history(None, cast, ctx, tables, 1, "reread", ops=[op], kwargs=start)
+        if h is not None and h.steps:
+            rep.count("directed:value-lattice", 0, (op["name"], op["op"], op.get("method"), h.steps[0]["out"][0]))
+            hs.append(h)
+
+    for name, v in start:
+        f = field_cast(cast["fields"], name)
+        kind = kind_of(f)
+        for y in LATTICE:
+            one({"op": "set", "name": name, "value": y})
+            if kind in ("list", "deque"):
+                one({"op": "set", "name": name, "value": (kind, list(v[1]) + [y])})
+                one({"op": "call", "name": name, "kind": kind, "method": "append", "args": [y]})
+                one({"op": "call", "name": name, "kind": kind, "method": "__setitem__", "args": [("int", 0), y]})
+                one({"op": "call", "name": name, "kind": kind, "method": "insert", "args": [("int", 0), y]})
+                one({"op": "call", "name": name, "kind": kind, "method": "extend", "args": [("list", [("int", 2), y])]})
+            if kind == "dict" and G.is_hashable(y):
+                one({"op": "set", "name": name, "value": ("dict", list(v[1]) + [(("str", "n"), y)])})
+                one({"op": "call", "name": name, "kind": "dict", "method": "__setitem__", "args": [("str", "k"), y]})
+                one({"op": "call", "name": name, "kind": "dict", "method": "update", "args": [("dict", [(("str", "n"), ("int", 2)), (("str", "o"), y)])]})
+                one({"op": "call", "name": name, "kind": "dict", "method": "setdefault", "args": [("str", "n"), y]})
+                one({"op": "call", "name": name, "kind": "dict", "method": "__setitem__", "args": [y, ("int", 2)]})
+    return hs
+
+
+def nonatomic_casts():
+    I = {"t": "num", "k": "Integer", "s": "Any"}
+    Sx = {"t": "str"}
+    nosz = [None, None]
+    mixed = [("int", 1), ("int", 2), ("int", 0), ("str", "a"), ("int", 7), ("int", 5)]
+    ints = [("int", 4), ("int", 3), ("int", 2), ("int", 1), ("int", 9), ("int", 0)]
+    out = []
+    for kind in ("list", "deque"):
+        out.append((kind, {"t": "seqany", "k": kind, "sz": nosz, "uniq": False}, (kind, mixed)))
+        out.append((kind, {"t": "seqeach", "k": kind, "item": {"t": "anyof", "fs": [I, Sx]}, "sz": nosz, "uniq": False}, (kind, mixed)))
+        out.append((kind, {"t": "seqeach", "k": kind, "item": I, "sz": nosz, "uniq": False}, (kind, ints)))
+        out.append((kind, {"t": "seqeach", "k": kind, "item": I, "sz": [1, 8], "uniq": True}, (kind, ints)))
+        out.append((kind, {"t": "seqpos", "k": kind, "items": [I], "sz": nosz, "uniq": False, "additional": None}, (kind, mixed)))
+    pairs = [(("str", "k"), ("int", 1)), (("str", "j"), ("int", 2))]
+    out.append(("dict", {"t": "mapkv", "kf": Sx, "vf": I, "sz": nosz}, ("dict", pairs)))
+    out.append(("dict", {"t": "mapany", "sz": nosz}, ("dict", pairs)))
+    out.append(("dict", {"t": "mapkv", "kf": Sx, "vf": I, "sz": [1, 5]}, ("dict", pairs)))
+    return out
+
+
+def directed_nonatomic(ctx, tables, rep):
+    """Calls on which the BASE type's method itself is not failure-atomic in CPython: list.sort when a comparison
+    raises after elements were moved (content the declaration admits but Python cannot order, or a key function
+    yielding such keys), extend / += / extendleft / update / |= fed by an iterator that raises after yielding valid
+    items.  A wrapper that runs them on its live value (instead of a copy) leaves the instance changed."""
+    hs = []
+    for ci, (kind, f, start) in enumerate(nonatomic_casts()):
+        cname = "WA_%s_%d" % (kind, ci)
+        if cname not in ctx.classes and not add_class(
+                ctx, {"name": cname, "fields": [{"name": "a", "field": f}], "required": ["a"], "additional": False}):
+            continue
+        cast = ctx.ast(cname)
+        ops = []
+        n = len(start[1])
+        if kind in ("list", "deque"):
+            good = [("int", 11), ("int", 12)]
+            for m in ("extend", "__iadd__") + (("extendleft",) if kind == "deque" else ()):
+                ops.append({"op": "call", "name": "a", "kind": kind, "method": m, "args": [["x:failiter", good]]})
+                ops.append({"op": "call", "name": "a", "kind": kind, "method": m, "args": [["x:iter", good]]})
+            ops.append({"op": "call", "name": "a", "kind": kind, "method": "__iadd__", "args": [["x:failiter", good]], "aug": True})
+        if kind == "list":
+            ops.append({"op": "call", "name": "a", "kind": kind, "method": "sort", "args": []})
+            ops.append({"op": "call", "name": "a", "kind": kind, "method": "sort", "args": [], "kwargs": {"reverse": ("bool", True)}})
+            for keys in (_failing_keys(n), [("int", 1), ("int", 2), ("int", 0), ("str", "a"), ("int", 7), ("int", 5)]):
+                ops.append({"op": "call", "name": "a", "kind": kind, "method": "sort", "args": [], "kwargs": {"key": ["x:keyseq", keys]}})
+                ops.append({"op": "call", "name": "a", "kind": kind, "method": "sort", "args": [],
+                            "kwargs": {"key": ["x:keyseq", keys], "reverse": ("bool", True)}})
+            ops.append({"op": "call", "name": "a", "kind": kind, "method": "__setitem__",
+                        "args": [["x:slice", 1, 3, None], ["x:failiter", good]]})
+        if kind == "dict":
+            good = [("tuple", [("str", "n"), ("int", 3)]), ("tuple", [("str", "o"), ("int", 4)])]
+            for m in ("update", "__ior__"):
+                ops.append({"op": "call", "name": "a", "kind": kind, "method": m, "args": [["x:failiter", good]]})
+                ops.append({"op": "call", "name": "a", "kind": kind, "method": m, "args": [["x:iter", good]]})
+            ops.append({"op": "call", "name": "a", "kind": kind, "method": "update",
+                        "args": [["x:failiter", good]], "kwargs": {"p": ("int", 5)}})
+            ops.append({"op": "call", "name": "a", "kind": kind, "method": "__ior__", "args": [["x:failiter", good]], "aug": True})
+        for op in ops:
+            h = run_history(None, cast, ctx, tables, 1, "reread", ops=[op], kwargs=[("a", start)])
+            if h is not None and h.steps:
+                rep.count("directed:nonatomic-base", 0, (ci, op["method"], X.call_args_src(op)[:20], h.steps[0]["out"][0]))
+                hs.append(h)
+        # the same after a failed and a successful operation (history), re-using the handle obtained first
+        seq = [o for o in ops if o["method"] in ("sort", "extend", "update")][:3]
+        if seq:
+            h = run_history(None, cast, ctx, tables, len(seq), "reuse", ops=seq, kwargs=[("a", start)])
+            if h is not None and h.steps:
+                rep.count("directed:nonatomic-base", 0, (ci, "reuse-history"))
+                hs.append(h)
+    return hs
+
+
 def directed_nested(ctx, tables, rep):
     """F5: typed containers nested in containers."""
     I = {"t": "num", "k": "Integer", "s": "Any"}
@@ -888,9 +1831,12 @@ def directed_nested(ctx, tables, rep):
             cls = ctx.classes[cname]
             for method, _ in tables[ikind]:
                 for args in DIRECTED_ARGS[ikind]:
-                    op = {"op": "nested", "name": "a", "okind": okind, "ikind": ikind, "sel": sel, "method": method, "args": args}
+                    op = dict(directed_op(ikind, method, args), op="nested", okind=okind, ikind=ikind, sel=sel)
+                    op.pop("kind")
                     h = run_history(None, ctx.ast(cname), ctx, tables, 1, "reread", ops=[op], kwargs=[("a", start)])
                     if h is None or not h.steps:
+                        continue
+                    if h.steps[0]["post"] is not None and any(has_opaque(v) for _, v in h.steps[0]["post"]):
                         continue
                     rep.count("directed:nested", 1, (okind, ikind, method))
                     st = h.steps[0]
@@ -908,14 +1854,17 @@ def directed_nested(ctx, tables, rep):
 
 def replay_obj(h, upto, ctx):
     ops = [s["op"] for s in h.steps[:upto + 1]]
-    lines = [G.IMPORTS, ctx_source_for(ctx, h.cast["name"]),
+    lines = [G.IMPORTS + (X.PRELUDE if X.needs_prelude(ops) else ""), ctx_source_for(ctx, h.cast["name"]),
              "x = %s(%s)" % (h.cast["name"], ", ".join("%s=%s" % (k, G.py_src(v)) for k, v in h.kwargs))]
+    if h.origin != "ctor":
+        lines.append(ORIGIN_SRC[h.origin])
     if h.mode == "reuse":
         lines.append("# handles obtained once and re-used: each x.<f> below refers to the object first read")
     for op in ops:
         lines.append("try:\n    %s\nexcept Exception as e:\n    print(type(e).__name__, e)" % op_src(op))
     lines.append("print(x)")
     return {"class": h.cast, "extra_classes": needed_classes(ctx, h.cast), "kwargs": h.kwargs, "ops": ops, "mode": h.mode,
+            "origin": h.origin,
             "python": "\n".join(lines) + "\n"}
 
 
@@ -926,6 +1875,7 @@ def needed_classes(ctx, cast):
 
 def ctx_source_for(ctx, name):
     base = "".join(S.class_src(c) + "\n" for c in S.Context.BASE)
+    base += "".join(S.class_src(c) + "\n" for c in needed_classes(ctx, ctx.ast(name)))
     return base + S.class_src(ctx.ast(name))
 
 
@@ -939,11 +1889,34 @@ def replay(obj):
         if not rep.violations:
             print("no clause of C03 fails on the DateString/TimeString inputs now")
         return 1 if rep.violations else 0
+    if obj.get("stream") == "container-hook":
+        rep = core.Report("C03", "quick")
+        rep.known = []
+        directed_container_hook(rep, WB.strict_tables())
+        hits = [v for v in rep.violations if v["key"] == obj.get("finding_key")]
+        for v in hits:
+            print("FAILS    :", v["key"], "-", v["what"])
+        if not hits:
+            print("the clause no longer fails")
+        print("required : every mutation raises leaving the instance unchanged, or succeeds leaving it valid -- also after a "
+              "mutation the class's __validate__ rejected")
+        return 1 if hits else 0
+    if obj.get("stream") == "fieldclasses":
+        rep = core.Report("C03", "quick")
+        rep.known = []
+        directed_fieldclasses(rep)
+        hits = [v for v in rep.violations if v["key"] == obj.get("finding_key")]
+        for v in hits:
+            print("FAILS    :", v["key"], "-", v["what"])
+        if not hits:
+            print("the clause no longer fails for field class %s on the probed values" % obj.get("field_class"))
+        print("required : an assignment the field rejects raises TypeError/ValueError and leaves the instance unchanged")
+        return 1 if hits else 0
     if "class" not in obj:
         print(json.dumps({k: obj[k] for k in obj if k != "python"}, indent=1, default=str)[:3000])
         print("this replay names a broken obligation, not a concrete input")
         return 2
-    tables = GEN.tables()
+    tables = WB.strict_tables()
     ctx = S.Context()
     ctx.tables = tables
     for c in obj.get("extra_classes", []):
@@ -952,7 +1925,7 @@ def replay(obj):
         print("the class definition is rejected now")
         return 2
     h = run_history(None, obj["class"], ctx, tables, len(obj["ops"]), obj.get("mode", "reread"),
-                    ops=obj["ops"], kwargs=[tuple(kv) for kv in obj["kwargs"]])
+                    ops=obj["ops"], kwargs=[tuple(kv) for kv in obj["kwargs"]], origin=obj.get("origin", "ctor"))
     if h is None:
         print("the start instance cannot be built now")
         return 2
@@ -994,8 +1967,10 @@ def replay(obj):
 def run(rep, tier):
     rnd = random.Random(core.seed() * 1000003 + 3)
     proofs_ok, model_ok = core.standard_proof_obligations(rep, "C03", ["theories/Check/C03chk.vo"])
-    tables = GEN.tables()
-    nclasses, per_class, nops = (110, 6, 8) if tier == "quick" else (220, 10, 40)
+    # Gen/Tables.v (which mutators exist / are overridden) refined by the classification of the translated method
+    # bodies (Gen/WrapBodies.v); Coq computes the same refinement (Check/C03chk.v table_of) and must agree
+    tables = WB.strict_tables()
+    nclasses, per_class, nops = (140, 6, 8) if tier == "quick" else (220, 10, 40)
     rep.assumptions += [
         "re.match is an oracle (Section variable), instantiated per case by a table filled from the real re module",
         "the base type's method applied to a plain copy of the wrapper's content (CPython itself) is the oracle for "
@@ -1027,6 +2002,31 @@ def run(rep, tier):
                                     "unsafe_now": ["%s.%s/%s" % u for u in unsafe_now]}
 
     all_histories = []          # (stream, History)
+    import time as _time
+    timing = rep.cov.setdefault("timing_s", {})
+    _t = [_time.time()]
+
+    def lap(name):
+        now = _time.time()
+        timing[name] = round(timing.get(name, 0) + now - _t[0], 2)
+        _t[0] = now
+    lap("proofs+tables")
+
+    # ---- directed streams that do not depend on the tables: equal-but-differently-typed values through every entry
+    # point; calls on which the base type's own method is not failure-atomic
+    for h in directed_lookalike(ctx, tables, rep):
+        all_histories.append(("directed:lookalike", h))
+    lap("directed:lookalike")
+    for h in directed_nonatomic(ctx, tables, rep):
+        all_histories.append(("directed:nonatomic-base", h))
+    lap("directed:nonatomic-base")
+    for h in directed_lattice(ctx, tables, rep):
+        all_histories.append(("directed:value-lattice", h))
+    lap("directed:value-lattice")
+    by_entry = {}
+    for _, h in all_histories:
+        if h.py_findings and h.steps and h.steps[0]["op"]["op"] == "call":
+            by_entry.setdefault((h.steps[0]["op"]["kind"], h.steps[0]["op"]["method"]), h)
 
     # ---- directed: every table entry (unsafe ones must yield a concrete failing input)
     for kind in ("list", "deque", "dict"):
@@ -1037,18 +2037,22 @@ def run(rep, tier):
             safe = shape == "CopyMutateReassign"
             if h is not None:
                 all_histories.append(("directed:table-entry", h))
-            elif not safe:
+            elif not safe and (kind, m) not in by_entry:
                 rep.broken("table-entry:%s.%s" % (kind, m),
                            "the generated table classifies %s.%s as %s (not validated/atomic by construction) but no "
-                           "input of the witness family makes the real wrapper misbehave: the override is in a form the "
+                           "input of the witness families makes the real wrapper misbehave: the override is in a form the "
                            "translator does not recognise" % (kind, m, shape), {"kind": kind, "method": m, "shape": shape})
+    lap("directed:table-entry")
     for name, h in directed_hooks(ctx, tables):
         rep.count("directed:hooks", 1, name)
         if h is not None:
             all_histories.append(("directed:hooks", h))
     directed_extfields(rep)
+    directed_fieldclasses(rep)
+    directed_container_hook(rep, tables)
     for h in directed_nested(ctx, tables, rep):
         all_histories.append(("directed:nested", h))
+    lap("directed:hooks+ext+nested")
 
     # ---- random histories
     made = 0
@@ -1070,16 +2074,21 @@ def run(rep, tier):
             made += 1
             all_histories.append(("history", h))
 
+    lap("random-histories")
     for stream, h in all_histories:
         for s in h.steps:
             op = s["op"]
             what = op["op"] if op["op"] in ("set", "del") else "%s:%s.%s" % (op["op"], op.get("kind", op.get("ikind")), op["method"])
+            if op["op"] in ("call", "nested"):
+                forms = sorted({a[0] for a in list(op.get("args", [])) + list((op.get("kwargs") or {}).values()) if X.is_special(a)})
+                what += "".join("+" + t[2:] for t in forms) + ("+kw" if op.get("kwargs") else "") + ("+aug" if op.get("aug") else "")
             outk = s["out"][0] if s["out"][0] == "ok" else s["out"][1]
             rep.count(stream, 1, (what, outk, s["post"] is not None))
             if stream == "history":
                 rep.stat(stream, "op:" + what)
                 rep.stat(stream, "outcome:" + outk)
                 rep.stat(stream, "mode:" + h.mode)
+                rep.stat(stream, "origin:" + h.origin)
     hs = [h for _, h in all_histories]
     if hs:
         h0 = [h for s, h in all_histories if s == "history"][:2]
@@ -1095,6 +2104,7 @@ def run(rep, tier):
         except RuntimeError as ex:
             rep.broken("correspondence:mstep/coq-eval", str(ex))
     nsteps = sum(len(h.steps) for h in hs)
+    lap("coq-eval")
     if r is not None:
         st = rep.cov["streams"].setdefault("history", {"evaluations": 0})
         st["histories"] = made
@@ -1115,14 +2125,20 @@ def run(rep, tier):
                     ctag = (fc or {}).get("t", "non-field")
                     if s["out"][0] == "ok" and r["nf_bad"].get(hi) == first_coq:
                         # validation itself (Field.__set__ chain) stored a value the declaration does not admit
-                        post = dict(s["post"] or [])
-                        key = "C03/stored-normal-form-invalid/%s/%s" % (ctag, nf_reason(fc, post.get(op["name"])))
+                        post = dict(post_state_at(h, first_coq))
+                        b = s["extra"].get("base")
+                        supplied = op["value"] if op["op"] == "set" else (b[1] if b and b[0] == "ok" else None)
+                        key = stored_nf_key(ctag, fc, supplied, post.get(op["name"]), ctx)
                         what = ("%s passed validation and stored %s, which %s does not admit (the constructor does the "
                                 "same with this value)" % (op_src(op), G.py_src(post[op["name"]]) if op["name"] in post else "?",
                                                             G.field_src(fc)))
                     elif s["out"][0] == "ok":
+                        post_now = dict(post_state_at(h, first_coq))
                         if op["op"] == "del" and cast_has_hook(ctx, h.cast):
                             key = "C03/delitem/hook-not-run"
+                        elif h.origin == "pickle" and not hook_ok_py(ctx.hook_of(h.cast["name"]), post_now):
+                            # the instance came out of pickle.loads: its __validate__ is never run again
+                            key = "C03/unpickled-instance/hook-not-run"
                         else:
                             key = finding_key(op, "invalid-after-success", tables, ctag)
                         what = "%s returned normally and left an instance that is not valid per its declaration" % op_src(op)
@@ -1138,21 +2154,26 @@ def run(rep, tier):
         rep.obligation("spec-on-observed:validity-and-atomicity", True,
                        "%d histories, %d steps; %d histories with a failing step (reported above as findings)" % (len(hs), nsteps, nsp))
         mism = {hi: k for hi, k in r["mismatch"].items() if hi not in start_bad}
-        rep.obligation("correspondence:mstep", not mism, "%d steps in %d histories, %d histories with a mismatching step" % (
-            nsteps, len(hs), len(mism)))
+        unexplained = {hi: k for hi, k in mism.items() if not any(j == k for j, _, _ in hs[hi].py_findings)}
+        rep.obligation("correspondence:mstep", not unexplained,
+                       "%d steps in %d histories; %d histories where model and implementation differ on a step, %d of them on "
+                       "a step that is itself reported as a finding (a clause of C03 fails there: concrete input above)" % (
+                           nsteps, len(hs), len(mism), len(mism) - len(unexplained)))
         rep.obligation("theorem-instance:C03_history-on-observed", not r["contradicted"],
                        "%d histories satisfy the hypotheses; %d contradict the conclusion" % (len(r["hyps"]), len(r["contradicted"])))
-        if mism:
-            hi = sorted(mism)[0]
-            h, k = hs[hi], mism[hi]
+        # a disagreement on a step where a clause of C03 fails is reported as that finding (concrete input);
+        # what remains is a disagreement without a failing clause
+        if unexplained:
+            hi = sorted(unexplained)[0]
+            h, k = hs[hi], unexplained[hi]
             o = replay_obj(h, k, ctx)
-            o["model_vs_impl"] = ("the model (Struct/Instance.v mstep, shapes from Gen/Tables.v) predicts a different "
-                                  "state/outcome for step %d: %s; observed %s, post-state %s" % (
+            o["model_vs_impl"] = ("the model (Struct/Instance.v mstep, shapes from Gen/Tables.v refined by Gen/WrapBodies.v) "
+                                  "predicts a different state/outcome for step %d: %s; observed %s, post-state %s" % (
                                       k, op_src(h.steps[k]["op"]), h.steps[k]["out"],
                                       "unchanged" if h.steps[k]["post"] is None else "changed"))
             rep.broken("correspondence:mstep",
                        "model and typedpy differ on %d histories (first: %s); no clause of C03 fails on that step" % (
-                           len(mism), op_src(h.steps[k]["op"])), o)
+                           len(unexplained), op_src(h.steps[k]["op"])), o)
         if r["contradicted"]:
             hi = r["contradicted"][0]
             rep.broken("theorem-instance:C03_history", "hypotheses of C03_history hold, the model agrees with the "
@@ -1169,8 +2190,11 @@ def run(rep, tier):
         from harness.props.c17 import broken_build
         broken_build(rep)
     return rep.finish(
-        rule="histories on valid instances of generated classes (typed Array/Deque/Map fields, hooks, immutables): "
-             "ops drawn from ALL introspected list/deque/dict mutators with valid/invalid arguments, setattr "
-             "valid/invalid/None, del x[name], nested-container mutators; handle modes re-read and re-use; plus directed "
-             "witness replays for every table entry, hooks, DateString/TimeString, nested containers; "
-             "distinct = distinct (operation kind.method, outcome class, state changed); all non-trivial")
+        rule="histories on valid instances (from the constructor, deepcopy, pickle, shallow_clone) of generated classes "
+             "(typed Array/Deque/Map fields, hooks, immutables, subclasses): ops drawn from ALL introspected list/deque/dict "
+             "mutators with valid/invalid positional, keyword, slice, iterator, failing-iterator and key-function arguments, "
+             "`x.f += v` forms, setattr valid/invalid/None/equal-but-differently-typed, del x[name], nested-container "
+             "mutators; handle modes re-read and re-use; plus enumerated streams (look-alike values through every entry "
+             "point, value lattice over multi-field wrappers, non-atomic base methods, every exported Field class, a hook "
+             "over container sizes) and directed witness replays for every table entry, hooks, nested containers; "
+             "distinct = distinct (operation kind.method + argument forms, outcome class, state changed); all non-trivial")
